@@ -105,4 +105,77 @@ theorem hh_getitem_api (ko : Rt.KeyOps K B) (lhh : Nat → Nat → B) (cnt kl : 
   unfold Full.hh_getitem
   simp only [FullHH.hh_max_count_full]
 
+/-! ### the batch entry points: `update(list)`, `update(dict)`, `update_ngram` are the loops of the single-key methods -/
+
+theorem linear_add_rep (ko : Rt.KeyOps K B) (width depth : Nat) (st : Tab × (Nat → Nat) × (Nat → Nat)) (s : Lin) (k : K) (v : Nat) (h : Rep st s) :
+    Rep (Full.linear_add ko CAP st.1 st.2.1 st.2.2 width depth k v) (Lin.add (geomOf ko depth width) s k v) := by
+  obtain ⟨h1, h2, h3⟩ := h
+  rw [h1, linear_add_api ko s st.2.1 st.2.2 width depth k v h2]
+  refine ⟨rfl, by simp [Rt.set1_apply], ?_⟩
+  have : (Lin.add (geomOf ko depth width) s k v).nRecords = s.nRecords := by unfold Lin.add; simp only []; split <;> rfl
+  simp [Rt.set1_apply, h3, this]
+
+/-- `CountMinLinear.update(list)` = `Lin.updateList` (a unit add per element, in order) -/
+theorem linear_update_list_api (ko : Rt.KeyOps K B) (width depth : Nat) (st : Tab × (Nat → Nat) × (Nat → Nat)) (s : Lin) (l : List K) (h : Rep st s) :
+    Rep (Full.linear_update_list ko CAP st.1 st.2.1 st.2.2 width depth l) (Lin.updateList (geomOf ko depth width) s l) := by
+  unfold Full.linear_update_list Lin.updateList
+  exact Rt.foldl_rel Rep _ _ (fun a b x hab => linear_add_rep ko width depth a b x 1 hab) l _ _ h
+
+/-- `CountMinLinear.update(dict)` = `Lin.updateDict` (`add(key, value)` per item, in insertion order) -/
+theorem linear_update_dict_api (ko : Rt.KeyOps K B) (width depth : Nat) (st : Tab × (Nat → Nat) × (Nat → Nat)) (s : Lin) (l : List (K × Nat)) (h : Rep st s) :
+    Rep (Full.linear_update_dict ko CAP st.1 st.2.1 st.2.2 width depth l) (Lin.updateDict (geomOf ko depth width) s l) := by
+  unfold Full.linear_update_dict Lin.updateDict
+  exact Rt.foldl_rel Rep _ _ (fun a b x hab => linear_add_rep ko width depth a b x.1 x.2 hab) l _ _ h
+
+/-- `CountMinLinear.update_ngram(keys, n)` on byte strings = the model's `updateNgram` -/
+theorem linear_update_ngram_api (H : List UInt8 → Nat → Nat) (width depth : Nat) (st : Tab × (Nat → Nat) × (Nat → Nat)) (s : Lin)
+    (keys : List (List UInt8)) (n : Nat) (h : Rep st s) :
+    Rep (Full.linear_update_ngram (Rt.bytesOps H (fun _ _ => ())) st.1 st.2.1 st.2.2 width depth CAP n keys)
+      (updateNgram (fun s k => Lin.add (geomOf (Rt.bytesOps H (fun _ _ => ())) depth width) s k 1) s keys n) := by
+  unfold Full.linear_update_ngram updateNgram
+  refine Rt.foldl_rel Rep _ _ ?_ keys _ _ h
+  intro a b x hab
+  rw [linear_add_ngram_api]
+  exact add_ngram_linear_windows H width depth a b x n hab
+
+/-- `HyperLogLog.update(list)`: one `Hll.add` per element; `update(dict)`: the same over the KEYS — the values are ignored -/
+theorem hll_update_api (ko : Rt.KeyOps K B) (R : Regs) (seed p : Nat) (l : List K) (d : List (K × Nat)) :
+    Full.hll_update_list ko R seed p (2 ^ p) l = l.foldl (fun R k => Hll.add p (fun k => ko.H k seed) R k) R ∧
+    Full.hll_update_dict ko R seed p (2 ^ p) d = (d.map (·.1)).foldl (fun R k => Hll.add p (fun k => ko.H k seed) R k) R := by
+  unfold Full.hll_update_list Full.hll_update_dict
+  simp only [hll_add_api, List.foldl_map]
+  exact ⟨trivial, trivial⟩
+
+theorem hll_update_ngram_api (ko : Rt.KeyOps K B) (R : Regs) (seed p m : Nat) (keys : List K) (n : Nat) :
+    Full.hll_update_ngram ko R seed p m n keys = keys.foldl (fun R k => Full.hll_add_ngram ko R seed p m k n) R := rfl
+
+/-- heavy hitters on byte strings: `update(list)` / `update(dict)` = `HH.updateList` / `HH.updateDict` on key identities -/
+theorem hh_add_m_rep (H : List UInt8 → Nat → Nat) (col : Nat → List UInt8 × Nat → Nat) (width depth mkl : Nat)
+    (hcol : ∀ r key, col r (FullHH.ident mkl key) = H (truncKey mkl key) r % width)
+    (st : (Nat → Nat → List UInt8) × (Nat → Nat → Nat) × (Nat → Nat → Nat) × (Nat → Nat)) (s : HH (List UInt8 × Nat))
+    (key : List UInt8) (v : Nat) (h : FullHH.Rep st s) :
+    FullHH.Rep (Full.hh_add_m (FullHH.hhOps H) CAP st.1 st.2.1 st.2.2.1 st.2.2.2 width depth mkl key v)
+      (HH.add { depth := depth, width := width, col := col } s (FullHH.ident mkl key) v) := by
+  unfold Full.hh_add_m
+  simp only []
+  have := FullHH.hh_add_rep H col width depth mkl hcol st s key (min v CAP) (Nat.min_le_right v CAP) h
+  have e : HH.add { depth := depth, width := width, col := col } s (FullHH.ident mkl key) (min v CAP) =
+      HH.add { depth := depth, width := width, col := col } s (FullHH.ident mkl key) v := by
+    unfold HH.add; simp only [Nat.min_assoc, Nat.min_self]
+  rw [e] at this
+  exact this
+
+theorem hh_update_api (H : List UInt8 → Nat → Nat) (col : Nat → List UInt8 × Nat → Nat) (width depth mkl : Nat)
+    (hcol : ∀ r key, col r (FullHH.ident mkl key) = H (truncKey mkl key) r % width)
+    (st : (Nat → Nat → List UInt8) × (Nat → Nat → Nat) × (Nat → Nat → Nat) × (Nat → Nat)) (s : HH (List UInt8 × Nat))
+    (l : List (List UInt8)) (d : List (List UInt8 × Nat)) (h : FullHH.Rep st s) :
+    FullHH.Rep (Full.hh_update_list (FullHH.hhOps H) CAP st.1 st.2.1 st.2.2.1 st.2.2.2 width depth mkl l)
+      (HH.updateList { depth := depth, width := width, col := col } s (l.map (FullHH.ident mkl))) ∧
+    FullHH.Rep (Full.hh_update_dict (FullHH.hhOps H) CAP st.1 st.2.1 st.2.2.1 st.2.2.2 width depth mkl d)
+      (HH.updateDict { depth := depth, width := width, col := col } s (d.map fun kv => (FullHH.ident mkl kv.1, kv.2))) := by
+  unfold Full.hh_update_list Full.hh_update_dict HH.updateList HH.updateDict
+  simp only [List.foldl_map]
+  exact ⟨Rt.foldl_rel FullHH.Rep _ _ (fun a b x hab => hh_add_m_rep H col width depth mkl hcol a b x 1 hab) l _ _ h,
+         Rt.foldl_rel FullHH.Rep _ _ (fun a b x hab => hh_add_m_rep H col width depth mkl hcol a b x.1 x.2 hab) d _ _ h⟩
+
 end Sketchnu.FullApi
